@@ -301,6 +301,14 @@ trait IntoCInt {
     fn into_c_int(self) -> c_int;
 }
 
+/// Verification hook: exposes the private error-to-code mapping as a function.
+#[cfg(iceoryx2_verif)]
+#[doc(hidden)]
+#[allow(private_bounds)]
+pub fn __verif_into_c_int<T: IntoCInt>(value: T) -> c_int {
+    value.into_c_int()
+}
+
 trait HandleToType {
     type Target;
 
